@@ -58,6 +58,10 @@ def main():
             sh(["git", "-C", "/repo", "worktree", "remove", "--force", str(wt)])
             sys.exit("patch does not apply: " + r.stdout)
         env = dict(os.environ, VERIF_REPO=str(wt))
+    # evidence of a run against a seeded change must not replace the evidence of the unchanged tree
+    ev = V / "work" / "evidence-seeded"
+    ev.mkdir(parents=True, exist_ok=True)
+    env["VERIF_EVIDENCE_DIR"] = str(ev)
     try:
         for c in a.checks:
             t0 = time.time()
